@@ -127,7 +127,7 @@ Variable en : env.
 Hypothesis Hstd : std_predef en.
 
 Definition Rdef (a0 a' : str * atttype * attdefault) : Prop :=
-  fst (fst a0) = fst (fst a') /\
+  fst a0 = fst a' /\
   match snd a0, snd a' with
   | ADValue _ v0, ADValue _ v' => av_value (S (S f')) en v0 = av_value (S (S f')) en v'
   | ADRequired, ADRequired | ADImplied, ADImplied => True
@@ -163,7 +163,7 @@ Lemma fold_R : forall l0 l', Forall2 Rdef l0 l' -> forall acc0 acc', Forall2 Rde
   Forall2 Rdef (fold_left stepd l0 acc0) (fold_left stepd l' acc').
 Proof.
   induction 1 as [|x y l0 l' Hxy _ IH]; intros acc0 acc' Hacc; [exact Hacc|]. cbn [fold_left]. apply IH.
-  destruct x as [[nm ty] df]. destruct y as [[nm' ty'] df']. pose proof Hxy as [Hn _]. cbn [fst] in Hn. subst nm'.
+  destruct x as [[nm ty] df]. destruct y as [[nm' ty'] df']. pose proof Hxy as [Hn _]. cbn [fst] in Hn. injection Hn as <- <-.
   cbn [stepd]. rewrite (Rdef_names _ _ Hacc). destruct (mem nm _); [exact Hacc|]. apply Forall2_app; [exact Hacc|constructor; [exact Hxy|constructor]].
 Qed.
 
@@ -179,7 +179,7 @@ Lemma defaulted_read l l' el (atts1 atts2 : list (str * list avpiece)) : Forall2
 Proof.
   intros H Hm. unfold defaulted_atts. pose proof (attdefs_R l l' el H) as HR.
   induction HR as [|x y D0 D' Hxy _ IH]; [reflexivity|]. cbn [flat_map]. rewrite !map_app, IH. f_equal.
-  destruct x as [[nm ty] df]. destruct y as [[nm' ty'] df']. destruct Hxy as [Hn Hv]. cbn [fst snd] in Hn, Hv. subst nm'.
+  destruct x as [[nm ty] df]. destruct y as [[nm' ty'] df']. destruct Hxy as [Hn Hv]. cbn [fst snd] in Hn, Hv. injection Hn as <- <-.
   destruct df as [| |fx v], df' as [| |fx' v']; try reflexivity; try (exfalso; exact Hv).
   rewrite (Hm nm). destruct (mem nm (map fst atts2)); [reflexivity|]. cbn [map]. unfold nvalg. cbn [fst snd]. now rewrite Hv.
 Qed.
